@@ -27,7 +27,7 @@ type Behaviour struct {
 	Mangle   int  // 0 = proper reply; otherwise one of mangleNames (a reply that must not be accepted)
 }
 
-var mangleNames = []string{"", "63-bytes", "65-bytes", "128-bytes", "1024-bytes", "other-serial", "other-function", "som-0x18", "som-0x19", "empty"}
+var mangleNames = []string{"", "63-bytes", "65-bytes", "128-bytes", "1024-bytes", "other-serial", "other-function", "som-0x18", "som-0x19", "empty", "split-40+24"}
 
 func mangle(r []byte, m int) []byte {
 	switch m {
@@ -71,7 +71,8 @@ type Farm struct {
 	quit  chan struct{}
 	wg    sync.WaitGroup
 
-	DiscoveryNoise bool
+	DiscoveryNoise  bool
+	BlankController bool
 }
 
 func NewFarm() (*Farm, error) {
@@ -166,6 +167,9 @@ func (f *Farm) serveUDP() {
 		f.record(FarmEvent{time.Now(), idx, from.String(), "udp"})
 		if req[1] == 0x94 && binary.LittleEndian.Uint32(req[4:8]) == 0 { // discovery: several controllers answer
 			go func() {
+				if f.BlankController { // a controller with factory-blank settings: its reply is byte for byte the request
+					f.udp.WriteToUDP(append([]byte{}, req...), from)
+				}
 				for k := 0; k < 6; k++ {
 					r := farmReply(req)
 					binary.LittleEndian.PutUint32(r[4:8], uint32(405419896+k))
@@ -205,6 +209,13 @@ func (f *Farm) serveUDP() {
 			if d := b.Delay - time.Since(start); d > 0 {
 				time.Sleep(d)
 			}
+			if b.Mangle == 10 { // two wrong-length datagrams whose concatenation would be a valid reply
+				r := farmReply(req)
+				f.udp.WriteToUDP(r[:40], from)
+				time.Sleep(60 * time.Millisecond)
+				f.udp.WriteToUDP(r[40:], from)
+				return
+			}
 			f.udp.WriteToUDP(mangle(farmReply(req), b.Mangle), from)
 		}()
 	}
@@ -234,7 +245,14 @@ func (f *Farm) serveTCP() {
 				return
 			}
 			time.Sleep(b.Delay)
-			c.Write(mangle(farmReply(req), b.Mangle))
+			if b.Mangle == 10 {
+				r := farmReply(req)
+				c.Write(r[:40])
+				time.Sleep(60 * time.Millisecond)
+				c.Write(r[40:])
+			} else {
+				c.Write(mangle(farmReply(req), b.Mangle))
+			}
 			tmp := make([]byte, 1)
 			c.SetReadDeadline(time.Now().Add(time.Second))
 			c.Read(tmp) // let the client close first
